@@ -21,7 +21,7 @@ META = {
             "unlink/fileno on a real Channel with a real os.pipe; every line of pipe.py, buffered_pipe.py "
             "and the channel's pipe-maintaining functions is a scheduling point; at the end the descriptor "
             "must be readable iff data/EOF/closed. Plus [sequential histories] every operation history up to depth "
-            "4/6 over {fileno, feed stdout/stderr/empty, recv 1/all, recv_stderr, EOF, set_combine_stderr, unlink} "
+            "4/5 over {fileno, feed stdout/stderr/empty, recv 1/all, recv_stderr, EOF, set_combine_stderr, unlink} "
             "from every initial state (0-2 stdout bytes x 0-1 stderr bytes x EOF received or not, no descriptor "
             "yet), the iff evaluated after every operation once fileno() has been called.",
     "note": "atomicity = source line in the traced files; CPython; POSIX pipe",
@@ -366,7 +366,7 @@ def main(tier):
                     ["atomicity granularity = source line in traced files", "POSIX pipe via os.pipe"])
     items = [(tier, s) for s in scenarios(tier)]
     ck.merge(core.pmap(items, run_scn))
-    sdepth = 4 if tier == "quick" else 6
+    sdepth = 4 if tier == "quick" else 5
     inits = [(io, ie, e) for io in (0, 1, 2) for ie in (0, 1) for e in (False, True)]
     ck.extra["sequential_history_depth"] = sdepth
     ck.merge(core.pmap([(tier, init, op, sdepth) for init in inits for op in SEQ_OPS], run_seq))
